@@ -46,6 +46,7 @@ func runCase(c *Case, src *choice.Source, out *wproto.Out, id int) {
 			out.Finding(id, f.Sig, "mismatch", f.Msg, c)
 		}
 	}
+	out.Trace(id, st.MapDep, []any{c.Tape, st.Bytes, st.Deliveries, st.Frags, st.Zero, st.DataEOF, st.WriteFaults}, []any{sigs, c.Kind, st.Files, st.Faces, st.Rows})
 	out.End(id, sigs)
 	out.Count("evaluations", 1)
 	out.Count("kind."+c.Kind, 1)
